@@ -1332,6 +1332,25 @@ func genCrashpoints(r *Rng, idx int, tier string, step func(op string) string) {
 			if r.Chance(50) {
 				crash() // right after the write completed
 			}
+		case roll < 43 && !gated && len(live) > 0:
+			// the storage refuses the piece (its first write call fails): the torrent stops with the error; nothing of
+			// the piece may be claimed, whatever reached the disk of its later sections
+			do("gate kind=failwrite on=1")
+			p := live[r.Intn(len(live))]
+			for k := 0; k < 8 && len(p.pending) > 0 && !strings.Contains(last, "writefail"); k++ {
+				q := p.pending[0]
+				p.pending = p.pending[1:]
+				do(fmt.Sprintf("msg p=%d t=piece i=%d b=%d l=%d data=true", p.k, q[0], q[1], q[2]))
+			}
+			do("gate kind=failwrite on=0")
+			for _, p := range peers {
+				if obsKV(last)["st"] != "Downloading" {
+					p.closed = true
+					p.pending = nil
+				}
+			}
+			crash()
+			do("start")
 		case roll < 45:
 			do("stop")
 			for _, p := range peers {
